@@ -208,6 +208,10 @@ fn check(mode: &str, obs: &Obs, rr: &RunResult) -> Vec<Violation> {
             vs.extend(obs.call_sequences());
         }
         "C03" => vs.extend(obs.barrier_log()),
+        "C16" => {
+            vs.extend(obs.joiner());
+            vs.extend(obs.outcome());
+        }
         "C19" => {
             match crate::alloc::take_report() {
                 Some(0) => {}
@@ -277,6 +281,12 @@ fn nontrivial(mode: &str, prog: &Prog, plan: &Plan, exp: &Expect) -> bool {
         }),
         "C13" => prog.handler.as_ref().map(|h| h.pos < n || exp.fail_step.is_some()).unwrap_or(false),
         "C03" => n >= 2 && prog.max_steps() >= 2,
+        "C16" => {
+            let o = &prog.opts;
+            let n_opts = [o.joiner.is_some(), o.lazy.is_some(), o.transpose.is_some(), o.futures_path.is_some()].iter().filter(|x| **x).count();
+            let single = (0..prog.max_steps()).any(|s| prog.active(s).len() == 1);
+            n_opts >= 2 || (n_opts >= 1 && prog.max_steps() >= 2 && single)
+        }
         "C19" => {
             let mut acts = Vec::new();
             for b in &prog.branches {
